@@ -32,7 +32,7 @@ import logging.config
 from typing import List
 
 import pathspec
-from confuse import Configuration
+from confuse import Configuration, ConfigTypeError
 from pkg_resources import get_distribution, DistributionNotFound
 
 from .config import config_template, dict_to_settings, Settings
@@ -129,8 +129,15 @@ def main(args: List[str] = tuple(sys.argv[1:])):
     settings_obj = dict_to_settings(settings_dict)
 
     # Concatenate all exclude filters rather than overriding the entire list
-    settings_obj.input.exclude_filters = list(
-        settings["input"]["exclude_filters"].all_contents())
+    exclude_filters = []
+    for filters, source in settings["input"]["exclude_filters"].resolve():
+        # Every source contributes to the union, so every source has to hold a list
+        if not isinstance(filters, (list, tuple)):
+            raise ConfigTypeError(
+                f"input.exclude_filters must be a list, got {type(filters).__name__}"
+                + (f" in {source.filename}" if getattr(source, "filename", None) else ""))
+        exclude_filters.extend(filters)
+    settings_obj.input.exclude_filters = exclude_filters
 
     # Load Python logging configuration from settings
     logging.config.dictConfig(settings_obj.logging.logger_config)
